@@ -2,7 +2,8 @@
 (* C10 on the design: open (Increase) then immediately fully close (Decrease) at unchanged prices and
    zero elapsed time, over side x collateral token x sizes x collaterals x market fixtures (open
    interest balanced / long-heavy / short-heavy / cross-over / empty, impact pool empty / small /
-   large, virtual inventory) x fee and impact settings x ALL orderings of the positive / negative
+   large, virtual inventory, accrued funding / claimable-funding / borrowing indices that differ between
+   collateral tokens and sides) x fee and impact settings x ALL orderings of the positive / negative
    position impact caps x price sets (incl. min # max and a non-stable short token).
    Established here (Inv): with max_positive_position_impact_factor <= max_negative_position_impact_factor
    (the governance convention, not checked by the code) the round trip never returns more than the
@@ -36,11 +37,14 @@ Fixture(k, c) ==
   LET base == [Market0(c) EXCEPT !.pool = P2(500, 5000)]
       oi(l, s) == [base EXCEPT !.oi = P4(l, 0, 0, s), !.oit = P4(l \div 10, 0, 0, s \div 10)]
   IN CASE k = 1 -> [oi(100, 100) EXCEPT !.ip = 0]
-       [] k = 2 -> [oi(200, 50)  EXCEPT !.ip = 30]
-       [] k = 3 -> [oi(50, 200)  EXCEPT !.ip = 30]
+       \* 2, 3, 6: funding / borrowing have accrued before the round trip -- cumulative per-size indices that
+       \* differ between the long-token and short-token entries and between the sides (either order)
+       [] k = 2 -> [oi(200, 50)  EXCEPT !.ip = 30, !.fps = P4(3, 1, 2, 5), !.cfps = P4(1, 4, 6, 2), !.bf = P2(3, 2)]
+       [] k = 3 -> [oi(50, 200)  EXCEPT !.ip = 30, !.fps = P4(0, 4, 3, 0), !.cfps = P4(5, 2, 0, 3), !.bf = P2(0, 4)]
        [] k = 4 -> [oi(80, 100)  EXCEPT !.ip = 1]
        [] k = 5 -> [oi(0, 0)     EXCEPT !.ip = 5]
-       [] k = 6 -> [oi(50, 200)  EXCEPT !.ip = 30, !.vi = [on |-> TRUE, L |-> 0, S |-> 400]]
+       [] k = 6 -> [oi(50, 200)  EXCEPT !.ip = 30, !.vi = [on |-> TRUE, L |-> 0, S |-> 400],
+                                        !.fps = P4(2, 2, 1, 7), !.cfps = P4(0, 3, 3, 8), !.bf = P2(1, 1)]
 
 Init == \E fx \in FixtureIds, st \in SettingIds, cp \in CapPairs :
           cas = [stage |-> 0, fx |-> fx, st |-> st, cp |-> cp]
